@@ -1,9 +1,9 @@
 //! [nom](https://crates.io/crates/nom)-based parser for [`Command`]s.
 use nom::{
     branch::alt,
-    bytes::complete::{is_a, tag, tag_no_case},
+    bytes::complete::{is_a, tag, take},
     character::complete::{digit1, hex_digit1},
-    combinator::{all_consuming, map, map_res, opt, rest, value},
+    combinator::{all_consuming, map, map_res, opt, rest, value, verify},
     number::complete::float,
     sequence::{delimited, preceded, terminated, tuple},
     IResult,
@@ -12,19 +12,27 @@ use nom::{
 use super::{Command, InputRegister};
 use crate::tui::Part;
 
+/// A keyword, compared ASCII case-insensitively.
+///
+/// `tag_no_case` pairs up the characters of input and keyword and then compares
+/// byte lengths, so that at the end of a line `quİ` passes for `quit`.
+fn keyword<'a>(word: &'static str) -> impl Fn(&'a str) -> IResult<&'a str, &'a str> {
+    verify(take(word.len()), move |s: &str| s.eq_ignore_ascii_case(word))
+}
+
 fn ws(input: &str) -> IResult<&str, &str> {
     is_a(" \t")(input)
 }
 
 fn nr_hex(input: &str) -> IResult<&str, u8> {
-    map_res(preceded(tag_no_case("0x"), hex_digit1), |nr| {
+    map_res(preceded(keyword("0x"), hex_digit1), |nr| {
         u8::from_str_radix(nr, 16)
     })(input)
 }
 
 fn nr_bin(input: &str) -> IResult<&str, u8> {
     let bits = is_a("01");
-    map_res(preceded(tag_no_case("0b"), bits), |nr| {
+    map_res(preceded(keyword("0b"), bits), |nr| {
         u8::from_str_radix(nr, 2)
     })(input)
 }
@@ -42,11 +50,11 @@ fn ws_opt(input: &str) -> IResult<&str, Option<&str>> {
 }
 
 fn set_ws(input: &str) -> IResult<&str, &str> {
-    terminated(tag_no_case("set"), ws)(input)
+    terminated(keyword("set"), ws)(input)
 }
 
 fn unset_ws(input: &str) -> IResult<&str, &str> {
-    terminated(tag_no_case("unset"), ws)(input)
+    terminated(keyword("unset"), ws)(input)
 }
 
 fn value_u8(input: &str) -> IResult<&str, u8> {
@@ -58,24 +66,24 @@ fn eq_ws(input: &str) -> IResult<&str, &str> {
 }
 
 fn parse_part(input: &str) -> IResult<&str, Part> {
-    let register = value(Part::RegisterBlock, tag_no_case("register"));
-    let memory = value(Part::Memory, tag_no_case("memory"));
+    let register = value(Part::RegisterBlock, keyword("register"));
+    let memory = value(Part::Memory, keyword("memory"));
     alt((register, memory))(input)
 }
 
 /// `load path/to/program`
 fn cmd_load_prgm(input: &str) -> IResult<&str, Command> {
-    map(tuple((tag_no_case("load"), ws, rest)), |(_, _, path)| {
+    map(tuple((keyword("load"), ws, rest)), |(_, _, path)| {
         Command::LoadProgram(path)
     })(input)
 }
 
 /// `set FC = 99`
 fn cmd_set_input_reg(input: &str) -> IResult<&str, Command> {
-    let fc = value(InputRegister::Fc, tag_no_case("fc"));
-    let fd = value(InputRegister::Fd, tag_no_case("fd"));
-    let fe = value(InputRegister::Fe, tag_no_case("fe"));
-    let ff = value(InputRegister::Ff, tag_no_case("ff"));
+    let fc = value(InputRegister::Fc, keyword("fc"));
+    let fd = value(InputRegister::Fd, keyword("fd"));
+    let fe = value(InputRegister::Fe, keyword("fe"));
+    let ff = value(InputRegister::Ff, keyword("ff"));
     let input_reg = alt((fc, fd, fe, ff));
     map(
         tuple((opt(set_ws), input_reg, eq_ws, value_u8)),
@@ -85,7 +93,7 @@ fn cmd_set_input_reg(input: &str) -> IResult<&str, Command> {
 
 /// `set IRG = 0xAB`
 fn cmd_set_irg(input: &str) -> IResult<&str, Command> {
-    let irg = tag_no_case("IRG");
+    let irg = keyword("IRG");
     map(tuple((set_ws, irg, eq_ws, value_u8)), |(_, _, _, val)| {
         Command::SetIrg(val)
     })(input)
@@ -93,7 +101,7 @@ fn cmd_set_irg(input: &str) -> IResult<&str, Command> {
 
 /// `set TEMP = 42.0`
 fn cmd_set_temp(input: &str) -> IResult<&str, Command> {
-    let temp = tag_no_case("TEMP");
+    let temp = keyword("TEMP");
     map(tuple((set_ws, temp, eq_ws, float)), |(_, _, _, f)| {
         Command::SetTemp(f)
     })(input)
@@ -101,10 +109,10 @@ fn cmd_set_temp(input: &str) -> IResult<&str, Command> {
 
 /// `set I1 = 1.1` and `set I2 = 2.2`
 fn cmd_set_ix(input: &str) -> IResult<&str, Command> {
-    let i1 = map(tuple((tag_no_case("I1"), eq_ws, float)), |(_, _, f)| {
+    let i1 = map(tuple((keyword("I1"), eq_ws, float)), |(_, _, f)| {
         Command::SetI1(f)
     });
-    let i2 = map(tuple((tag_no_case("I2"), eq_ws, float)), |(_, _, f)| {
+    let i2 = map(tuple((keyword("I2"), eq_ws, float)), |(_, _, f)| {
         Command::SetI2(f)
     });
     preceded(set_ws, alt((i1, i2)))(input)
@@ -112,10 +120,10 @@ fn cmd_set_ix(input: &str) -> IResult<&str, Command> {
 
 /// `set J1` and `unset J2`
 fn cmd_set_jx<'a>(input: &'a str) -> IResult<&str, Command<'a>> {
-    let set_j1 = value(Command::SetJ1(true), preceded(set_ws, tag_no_case("J1")));
-    let set_j2 = value(Command::SetJ2(true), preceded(set_ws, tag_no_case("J2")));
-    let unset_j1 = value(Command::SetJ1(false), preceded(unset_ws, tag_no_case("J1")));
-    let unset_j2 = value(Command::SetJ2(false), preceded(unset_ws, tag_no_case("J2")));
+    let set_j1 = value(Command::SetJ1(true), preceded(set_ws, keyword("J1")));
+    let set_j2 = value(Command::SetJ2(true), preceded(set_ws, keyword("J2")));
+    let unset_j1 = value(Command::SetJ1(false), preceded(unset_ws, keyword("J1")));
+    let unset_j2 = value(Command::SetJ2(false), preceded(unset_ws, keyword("J2")));
 
     alt((set_j1, set_j2, unset_j1, unset_j2))(input)
 }
@@ -124,27 +132,27 @@ fn cmd_set_jx<'a>(input: &'a str) -> IResult<&str, Command<'a>> {
 fn cmd_set_uiox(input: &str) -> IResult<&str, Command> {
     let set_uio1 = value(
         Command::SetUio1(true),
-        preceded(set_ws, tag_no_case("UIO1")),
+        preceded(set_ws, keyword("UIO1")),
     );
     let set_uio2 = value(
         Command::SetUio2(true),
-        preceded(set_ws, tag_no_case("UIO2")),
+        preceded(set_ws, keyword("UIO2")),
     );
     let set_uio3 = value(
         Command::SetUio3(true),
-        preceded(set_ws, tag_no_case("UIO3")),
+        preceded(set_ws, keyword("UIO3")),
     );
     let unset_uio1 = value(
         Command::SetUio1(false),
-        preceded(unset_ws, tag_no_case("UIO1")),
+        preceded(unset_ws, keyword("UIO1")),
     );
     let unset_uio2 = value(
         Command::SetUio2(false),
-        preceded(unset_ws, tag_no_case("UIO2")),
+        preceded(unset_ws, keyword("UIO2")),
     );
     let unset_uio3 = value(
         Command::SetUio3(false),
-        preceded(unset_ws, tag_no_case("UIO3")),
+        preceded(unset_ws, keyword("UIO3")),
     );
     alt((
         set_uio1, set_uio2, set_uio3, unset_uio1, unset_uio2, unset_uio3,
@@ -154,21 +162,21 @@ fn cmd_set_uiox(input: &str) -> IResult<&str, Command> {
 /// `show blub`
 fn cmd_show(input: &str) -> IResult<&str, Command> {
     map(
-        tuple((tag_no_case("show"), ws, parse_part)),
+        tuple((keyword("show"), ws, parse_part)),
         |(_, _, part)| Command::Show(part),
     )(input)
 }
 
 /// `quit`
 fn cmd_quit(input: &str) -> IResult<&str, Command> {
-    let quit = tag_no_case("quit");
-    let exit = tag_no_case("exit");
+    let quit = keyword("quit");
+    let exit = keyword("exit");
     value(Command::Quit, alt((quit, exit)))(input)
 }
 
 /// `next N`
 fn cmd_next(input: &str) -> IResult<&str, Command> {
-    let next = tag_no_case("next");
+    let next = keyword("next");
     map(preceded(next, opt(preceded(ws, nr_dec_usize))), |nr| {
         Command::Next(nr.unwrap_or(1))
     })(input)
